@@ -455,3 +455,82 @@ def _brief(recs):
     if len(recs) > 8:
         out.append("..+%d" % (len(recs) - 8))
     return "[" + ", ".join(out) + "]"
+
+
+# ------------------------------------------------------------------ coverage-guided supplement (thorough tier)
+def extra(tier, seed):
+    """atheris/libFuzzer campaign on the unkeyed byte stream (harness/fuzz_c12.py); Hypothesis above remains
+    the deciding engine, nothing is claimed on this alone.  Skipped when atheris is not installed."""
+    import os, sys, glob, shutil, subprocess, re, struct, tempfile
+    from runner import VERIF
+    if tier != "thorough":
+        return dict(violations=[], coverage=dict(atheris="not run in the quick tier"))
+    deps = os.path.join(VERIF, ".deps")
+    if not os.path.isdir(os.path.join(deps, "atheris")):
+        return dict(violations=[], coverage=dict(atheris="not installed; supplement skipped"))
+    os.makedirs(os.path.join(VERIF, "scratch"), exist_ok=True)
+    work = tempfile.mkdtemp(prefix="c12fz-", dir=os.path.join(VERIF, "scratch"))
+    corpus = os.path.join(work, "corpus")
+    os.makedirs(corpus)
+    # a few small valid-looking inputs so the fuzzer starts past the prologue (and past a relay reply)
+    seeds = []
+    for role_bit, prologue in ((1, C_PROLOGUES[1]), (0, C_PROLOGUES[0])):
+        seeds.append(bytes([role_bit, 200]) + prologue)
+        seeds.append(bytes([role_bit, 7]) + prologue + struct.pack(">L", 48) + bytes(48))
+        seeds.append(bytes([role_bit | 2, 50]) + b"ok\n" + prologue + struct.pack(">L", 48) + bytes(range(48)))
+        seeds.append(bytes([role_bit, 3]) + prologue + struct.pack(">L", 0) + struct.pack(">L", 70000))
+    for k, sd in enumerate(seeds):
+        with open(os.path.join(corpus, "seed%d" % k), "wb") as f:
+            f.write(sd)
+    runs = 400000
+    env = dict(os.environ, PYTHONHASHSEED="0")
+    cmd = [sys.executable, os.path.join(VERIF, "harness", "fuzz_c12.py"), "-runs=%d" % runs, "-seed=%d" % (seed or 1),
+           "-max_len=600", "-artifact_prefix=" + work + os.sep, corpus]
+    viol = []
+    try:
+        r = subprocess.run(cmd, env=env, capture_output=True, text=True, timeout=1500)
+        out = r.stdout + r.stderr
+        m = re.search(r"Done (\d+) runs", out)
+        done = int(m.group(1)) if m else 0
+        crashes = sorted(glob.glob(os.path.join(work, "crash-*")))
+        for cf in crashes[:1]:
+            with open(cf, "rb") as f:
+                data = f.read()
+            tail = [l for l in out.splitlines() if "Error" in l or "assert" in l.lower()][-3:]
+            viol.append(dict(clause="reject", detail="atheris input %s: %s" % (data[:64].hex(), " | ".join(tail)[:400]),
+                             input_class="unkeyed-bytes-crash-or-surface", exc=None, frame=None,
+                             params=dict(fuzz_input=data), part="fuzz"))
+        cov = dict(atheris_runs=done, atheris_corpus=len(os.listdir(corpus)), atheris_crashes=len(crashes),
+                   atheris_note="coverage-guided supplement on the unkeyed stream; -seed pins a campaign only approximately")
+    except subprocess.TimeoutExpired:
+        cov = dict(atheris="campaign hit its wall budget: inconclusive")
+    finally:
+        shutil.rmtree(work, ignore_errors=True)
+    return dict(violations=viol, coverage=cov)
+
+
+def run_part_case(part, params):
+    """replay of an atheris finding, without atheris"""
+    from wormhole._dilation.roles import LEADER, FOLLOWER
+    res = CaseResult()
+    data = params["fuzz_input"]
+    if len(data) < 2:
+        return res
+    role = LEADER if data[0] & 1 else FOLLOWER
+    relay = b"please relay X for side y\n" if data[0] & 2 else None
+    chunk = 1 + (data[1] % 97)
+    body = bytes(data[2:])
+    cs, p, t = make_end(role, KEY, relay)
+    m = ManagerStub()
+    p.makeConnection(t)
+    pos = 0
+    try:
+        while pos < len(body) and not t.lose:
+            p.dataReceived(body[pos:pos + chunk])
+            pos += chunk
+    except Exception as ex:
+        res.violate("reject", "unkeyed bytes made dataReceived raise %r" % ex, input_class="unkeyed-bytes-crash-or-surface",
+                    exc=type(ex).__name__)
+    if cs.candidates or m.records or m.peer:
+        res.violate("reject", "unkeyed bytes reached the connector/manager", input_class="unkeyed-bytes-crash-or-surface")
+    return res
